@@ -357,6 +357,48 @@ def run_verus(path, rlimit, extra=()):
     return dict(cmd=" ".join(cmd), rc=p.returncode, json=out_json, diags=diags, other=other, wall=dt)
 
 
+def run_witness(meta, unit):
+    """Bounded witness search against the REAL crate at VERIF_REPO (cargo build of /verif/witness with the
+    falcon path dependency pointed at VERIF_REPO). Returns (list of disagreement dicts, summary dict | None, log)."""
+    wbin = meta.get("witness")
+    if not wbin:
+        return [], None, "no witness binary for this unit"
+    import shutil, tempfile
+    repo = os.environ.get("VERIF_REPO", "/repo")
+    if not os.path.exists(os.path.join(repo, "Cargo.toml")):
+        return [], None, "VERIF_REPO has no Cargo.toml; witness search skipped"
+    wd = tempfile.mkdtemp(prefix="vf_witness_src.")
+    try:
+        shutil.copytree(os.path.join(VERIF, "witness"), os.path.join(wd, "w"), ignore=shutil.ignore_patterns("target"))
+        ct = os.path.join(wd, "w", "Cargo.toml")
+        txt = open(ct).read().replace('path = "/repo"', 'path = "%s"' % repo)
+        open(ct, "w").write(txt)
+        shutil.copy(os.path.join(repo, "Cargo.lock"), os.path.join(wd, "w", "Cargo.lock"))
+        env = dict(os.environ, CARGO_TARGET_DIR=os.environ.get("VERIF_WITNESS_TARGET", "/tmp/vf_witness_target"), CARGO_NET_OFFLINE="true")
+        b = subprocess.run(["cargo", "build", "--offline", "--release", "--bin", wbin], cwd=os.path.join(wd, "w"), env=env, capture_output=True, text=True, timeout=1500)
+        if b.returncode != 0:
+            return [], None, "witness build failed:\n" + b.stderr[-1500:]
+        exe = os.path.join(env["CARGO_TARGET_DIR"], "release", wbin)
+        r = subprocess.run([exe], capture_output=True, text=True, timeout=900)
+        wit, summ = [], None
+        for line in r.stdout.split("\n"):
+            line = line.strip()
+            if line.startswith("{"):
+                try:
+                    j = json.loads(line)
+                except Exception:
+                    continue
+                if j.get("witness"):
+                    wit.append(j)
+                elif j.get("summary"):
+                    summ = j
+        return wit, summ, "ok"
+    except Exception as e:  # noqa
+        return [], None, "witness search error: %s" % e
+    finally:
+        shutil.rmtree(wd, ignore_errors=True)
+
+
 def scan_trusted(text, fns):
     """Mechanical scan of the assembled file for everything that is assumed rather than proved."""
     tb = []
@@ -413,6 +455,25 @@ def main():
         print("re-running the check for unit %s against /repo ..." % unit)
 
     def undecided(reason, detail=""):
+        # The verifier could not decide. A bounded witness search against the real crate may still exhibit a
+        # concrete failing input (labelled bounded; it never turns an undecided run into a pass).
+        if not args.update_baseline and os.environ.get("VERIF_NO_WITNESS") != "1":
+            wit, summ, wlog = run_witness(meta, unit)
+            if wit:
+                rp_path = os.path.join(OUT, "replay", "%s.witness.json" % unit)
+                json.dump(dict(property=prop, unit=unit, obligation="%s.bounded-witness" % unit, verifier="undecided: %s" % reason,
+                               verifier_detail=detail[:3000], witnesses=wit, summary=summ,
+                               note="bounded witness search: the real public API of the crate at VERIF_REPO disagrees with the executable transcription of the specification on these inputs",
+                               rerun="./check %s" % unit), open(rp_path, "w"), indent=1)
+                ev = dict(property_id=prop, tier=tier, seed=seed, level="proof",
+                          coverage=dict(obligations=0, discharged=0, checker_cmd="verus (undecided: %s) + bounded witness search" % reason, trusted_base=[],
+                                        evaluations=(summ or {}).get("evaluations", 1), distinct_nontrivial=len(wit), explanation="verifier undecided; bounded witness search found failing inputs", samples=wit[:3]),
+                          assumptions=[], wall_s=round(time.time() - t_start, 2), violations=len(wit))
+                json.dump(ev, open(ev_path, "w"), indent=1)
+                w0 = wit[0]
+                print("VIOLATION property=%s replay=%s obligation=%s.bounded-witness.%s input=%s (verifier undecided: %s; failing input found by bounded search on the real code)" % (
+                    prop, rp_path, unit, w0.get("op", "?"), json.dumps({k: v for k, v in w0.items() if k not in ("witness",)}), reason))
+                sys.exit(1)
         ev = dict(property_id=prop, tier=tier, seed=seed, level="proof",
                   coverage=dict(obligations=0, discharged=0, checker_cmd="verus (not reached)", trusted_base=[],
                                 evaluations=1, distinct_nontrivial=0, explanation="UNDECIDED: %s" % reason),
@@ -584,6 +645,7 @@ def main():
     json.dump(ev, open(ev_path, "w"), indent=1)
 
     if violations:
+        wit, summ, wlog = ([], None, "skipped") if os.environ.get("VERIF_NO_WITNESS") == "1" else run_witness(meta, unit)
         for ob in violations:
             rp_path = os.path.join(OUT, "replay", re.sub(r"[^A-Za-z0-9_.-]", "_", ob) + ".json")
             f = next((f for f in fns if "%s.%s" % (unit, f.qual) == ob.rsplit(".ensures.", 1)[0].rsplit(".invariant.", 1)[0].rsplit(".body", 1)[0]), None)
@@ -594,9 +656,18 @@ def main():
                       source=[dict(path=i["path"], lines=i["lines"], sha256=i["sha256"]) for i in src_items],
                       counterexample=None,
                       note="Verus produces no counterexample; this obligation was discharged on the pinned tree and now fails with the verifier message above.",
+                      witness_search=wlog, witness_summary=summ,
                       rerun="./check %s" % unit)
+            fname = (f.name if f else "")
+            mine = [w for w in wit if w.get("op") == fname or fname in w.get("ops_related", [])]
+            if mine:
+                rp["counterexample"] = mine[:5]
+                rp["note"] = "Verus produces no counterexample; the bounded witness search replayed against the real crate found the failing input(s) in `counterexample`."
             json.dump(rp, open(rp_path, "w"), indent=1)
-            print("VIOLATION property=%s replay=%s obligation=%s no-failing-input-found" % (prop, rp_path, ob))
+            if mine:
+                print("VIOLATION property=%s replay=%s obligation=%s input=%s" % (prop, rp_path, ob, json.dumps({k: v for k, v in mine[0].items() if k != "witness"})))
+            else:
+                print("VIOLATION property=%s replay=%s obligation=%s no-failing-input-found" % (prop, rp_path, ob))
         sys.exit(1)
     if new_unlisted:
         undecided("obligation-not-on-baseline-fails", "\n".join("%s: %s" % (o, failed[o][0][:300]) for o in new_unlisted))
